@@ -236,8 +236,8 @@ def gen_streams(rng, w, cfg, adversarial):
             st.append(dict(wtopic='//', sid=sid, mid=-4, topics=[], bal=0, pay=0))
         for mid in ids:
             tl = list(pub)
-            if adversarial and rng.random() < 0.1 and tl:
-                tl = tl[:-1]
+            if rng.random() < 0.12 and tl:        # a publisher may leave a topic out of one frame and publish it again later
+                tl.remove(rng.choice(tl))
             parts = []
             for t in tl:
                 wt = ('' if t.startswith('_') else '/') + t + '/'
@@ -750,6 +750,14 @@ def send_oracle(run, case, props):
         for o in it[1]:
             if o[0] == 'P' and o[-1] == 'malformed' and 'C01' in props:
                 run.violation('sender:malformed-publish', 'one publish carried differing ids/topic lists or no single heartbeat', summary)
+    if 'C08' in props:
+        # an out-of-band message (a downstream filter's exit announcement) is handed up whoever sent it: registered client or
+        # not (a filter that dies in setup() has never asked for a frame; one that was silent for 5 s has been evicted)
+        for it in case['items'][:-1]:
+            raw = it[3]
+            if raw[0] == 'poll' and raw[1] and raw[1]['mid'] == -2 and ['o', raw[1]['pay']] not in [list(o) for o in it[1]]:
+                run.violation('sender:oob-dropped cid=%d' % raw[1]['cid'],
+                              'an out-of-band message from client c%d was read by the publisher but not handed to the application' % raw[1]['cid'], summary)
 
 
 # =====================================================================================================
@@ -922,8 +930,9 @@ def proto_component_check(run, props, n_recv, n_send, recv_fn='run_receiver'):
         run.seen(('r', recv_case_lit(c)), nontrivial=bool(rets))
         cases.append((recv_case_lit(c), enc_expected_recv(c), summarize(c)))
     run.model_disagree('receiver', IMPORTS, recv_fn, RECV_TYPE, cases, shard=60)
-    s0 = cases[len(CORPUS_RECV)][2]
-    run.samples.append(dict(family='receiver', cfg=s0['cfg'], first_items=s0['script'][:8]))
+    if len(cases) > len(CORPUS_RECV):
+        s0 = cases[len(CORPUS_RECV)][2]
+        run.samples.append(dict(family='receiver', cfg=s0['cfg'], first_items=s0['script'][:8]))
     # ---- generated sender histories
     cases = []
     for k in range(n_send):
